@@ -82,7 +82,13 @@ TAgg ==
   /\ viol' = AddViol(IF Ev.err # "" THEN {"C16_search_failed"} ELSE Metrics(Ev) \cup Terms(Ev) \cup Ranges(Ev))
   /\ nq' = nq + 1
 
-TraceSpec == TInit /\ [][TAgg]_tvars
+\* a generated aggregation tree: the request, the matched documents, the reported results (same shape)
+TTree ==
+  /\ Step("aggtree")
+  /\ viol' = AddViol(IF Ev.err # "" THEN {"C16_search_failed"} ELSE ChkRequest(Ev.req, Ev.res, Ev.docs))
+  /\ nq' = nq + 1
+
+TraceSpec == TInit /\ [][TAgg \/ TTree]_tvars
 TraceAccepted ==
   /\ IF TLCGet("stats").diameter - 1 = N THEN TRUE
      ELSE Print(<<"TRACE-NOT-CONSUMED", TLCGet("stats").diameter - 1, N>>, FALSE)
